@@ -5,6 +5,7 @@ package main
 import (
 	"fmt"
 	"go/constant"
+	"go/token"
 	"go/types"
 	"strings"
 
@@ -42,6 +43,7 @@ type SpecEnv struct {
 	qn    *int
 	side  *[]*Term // ground side facts (e.g. map well-formedness) usable as assumptions
 	inQ   int
+	pos   token.Pos // program point whose locals are visible (outside loop contexts)
 }
 
 func (e *SpecEnv) with(st *State) *SpecEnv {
@@ -302,6 +304,11 @@ func (e *SpecEnv) binary(n *EBinary) SV {
 		case *types.Map:
 			return SV{T: e.h.mapHas(e.st, mt, e.val(m), e.val(k)), Ty: tBool}
 		case *types.Slice:
+			if !isStructT(mt.Elem()) && !isArrayT(mt.Elem()) && !e.w.immutable[types.TypeString(m.Ty, nil)] {
+				es := e.w.sortOf(e.h.d, mt.Elem())
+				marr := e.h.arr(e.st, memArrName(es), SArray(SPtr, es))
+				return SV{T: Select(e.h.elemsOf(marr, e.val(m), es), e.val(k)), Ty: tBool}
+			}
 			*e.qn++
 			jn := fmt.Sprintf("j!%d", *e.qn)
 			j := &Term{jn, SInt}
@@ -673,6 +680,19 @@ func (e *SpecEnv) call(n *ECall) SV {
 					}
 					return SV{T: e.ft.iterVisited(e.st, l.RangeIter)}
 				}
+			case "toBytes":
+				x := e.val(e.tr(n.Args[0]))
+				fn := "conv_" + x.Sort.Mangle() + "_" + SSlc.Mangle()
+				e.h.d.Fun(fn, []*Sort{x.Sort}, SSlc)
+				return SV{T: mk(SSlc, fn, x), Ty: types.NewSlice(types.Typ[types.Byte])}
+			case "arrSlice":
+				x := e.tr(n.Args[0])
+				xt := e.val(x)
+				at, ok := x.Ty.Underlying().(*types.Array)
+				if !ok {
+					sfail("arrSlice: not an array")
+				}
+				return SV{T: e.h.arrSlice(xt), Ty: types.NewSlice(at.Elem())}
 			case "apply":
 				// apply(f, lowered args...): application of a function value on already lowered arguments
 				f := e.tr(n.Args[0])
@@ -804,6 +824,9 @@ func (e *SpecEnv) lookupPred(name string) *PredDef {
 func (e *SpecEnv) inlinePred(pd *PredDef, args []Expr) SV {
 	if len(args) != len(pd.Params) {
 		sfail("pred %s: expected %d arguments", pd.Name, len(pd.Params))
+	}
+	if pd.Opaque {
+		return e.opaquePred(pd, args)
 	}
 	if e.depth > 12 {
 		sfail("pred %s: inlining too deep (recursive?)", pd.Name)
@@ -978,71 +1001,84 @@ func (h *HeapCtx) fnAppLowered(fn *Term, sig *types.Signature, lowered []*Term) 
 	return mk(rs, name, append([]*Term{fn}, lowered...)...)
 }
 
-// ---- modifies items ----
+var _ = ssa.NaiveForm
 
-// resolveModifies maps textual modifies items to heap arrays. Items:
-//   T.f        field f of struct type T           map[K]V     contents of maps of that type
-//   []T / *T   memory cells of type T             fresh <item> written only at fresh objects
-func (h *HeapCtx) resolveModifies(pkg *packages.Package, items []string) (all map[string]*Sort, freshOnly map[string]bool, err error) {
-	all = map[string]*Sort{}
-	freshOnly = map[string]bool{}
-	for _, it := range items {
-		fresh := false
-		if strings.HasPrefix(it, "fresh ") {
-			fresh = true
-			it = strings.TrimSpace(it[6:])
+// opaquePred: an application of a predicate hidden behind an uninterpreted symbol. The symbol is
+// shared by all applications whose body (in their respective heap states) is syntactically the same;
+// its definition is available to the solver as a quantified axiom triggered on the symbol.
+func (e *SpecEnv) opaquePred(pd *PredDef, args []Expr) SV {
+	ppkg := e.w.pkgs[pd.Pkg]
+	if ppkg == nil {
+		ppkg = e.pkg
+	}
+	// 1. body over canonical bound variables
+	n := *e
+	n.pkg = ppkg
+	n.depth = e.depth + 1
+	n.vars = map[string]SV{}
+	cnt := 1000000
+	n.qn = &cnt
+	n.side = nil
+	var bs []Bound
+	var sorts []*Sort
+	var tys []types.Type
+	for i, p := range pd.Params {
+		ty, err := e.w.evalType(ppkg, p.TypeText)
+		if err != nil {
+			sfail("pred %s param %s: %v", pd.Name, p.Name, err)
 		}
-		one := map[string]*Sort{}
-		if strings.HasPrefix(it, "$") {
-			// ghost variable, handled by caller
-			one[it] = nil
-		} else if ty, e := h.w.evalType(pkg, it); e == nil {
-			switch t := ty.Underlying().(type) {
-			case *types.Map:
-				h.arraysOfMap(t, one)
-			case *types.Slice:
-				h.arraysOfType(t.Elem(), one)
-			case *types.Pointer:
-				h.arraysOfType(t.Elem(), one)
-			default:
-				return nil, nil, fmt.Errorf("modifies %q: expected map, slice or pointer type, or T.field", it)
-			}
-		} else {
-			i := strings.LastIndex(it, ".")
-			if i < 0 {
-				return nil, nil, fmt.Errorf("modifies %q: cannot resolve", it)
-			}
-			ty, e2 := h.w.evalType(pkg, it[:i])
-			if e2 != nil {
-				return nil, nil, fmt.Errorf("modifies %q: %v", it, e2)
-			}
-			ty = derefType(ty)
-			st, ok := ty.Underlying().(*types.Struct)
-			if !ok {
-				return nil, nil, fmt.Errorf("modifies %q: %s is not a struct", it, it[:i])
-			}
-			found := false
-			for k := 0; k < st.NumFields(); k++ {
-				if st.Field(k).Name() == it[i+1:] {
-					h.arraysOfField(ty, k, one)
-					found = true
-				}
-			}
-			if !found {
-				return nil, nil, fmt.Errorf("modifies %q: no such field", it)
-			}
+		srt := e.w.sortOf(e.h.d, ty)
+		bn := fmt.Sprintf("o!%s!%d", sanitize(pd.Name), i)
+		bs = append(bs, Bound{bn, srt})
+		sorts = append(sorts, srt)
+		tys = append(tys, ty)
+		n.vars[p.Name] = SV{T: &Term{bn, srt}, Ty: ty}
+	}
+	body := n.val(n.tr(pd.Body))
+	if body.Sort != SBool {
+		sfail("opaque pred %s: body is not boolean", pd.Name)
+	}
+	// 2. symbol keyed by the body text
+	if e.h.opaque == nil {
+		e.h.opaque = map[string]string{}
+	}
+	key := pd.Pkg + "." + pd.Name + "|" + body.S
+	sym, ok := e.h.opaque[key]
+	if !ok {
+		sym = fmt.Sprintf("P_%s_%d", sanitize(pd.Name), len(e.h.opaque))
+		e.h.opaque[key] = sym
+		e.h.d.Fun(sym, sorts, SBool)
+		var vs []*Term
+		for _, b := range bs {
+			vs = append(vs, &Term{b.Name, b.Sort})
 		}
-		for k, v := range one {
-			if old, ok := all[k]; ok && old != nil {
-				// already listed: fresh only if both fresh
-				freshOnly[k] = freshOnly[k] && fresh
-			} else {
-				all[k] = v
-				freshOnly[k] = fresh
+		app := mk(SBool, sym, vs...)
+		if len(vs) == 0 {
+			app = &Term{sym, SBool}
+			if e.h.emit != nil {
+				e.h.emit(mk(SBool, "=", app, body))
 			}
+		} else if e.h.emit != nil {
+			e.h.emit(Forall(bs, mk(SBool, "=", app, body), []*Term{app}))
 		}
 	}
-	return all, freshOnly, nil
+	// 3. application
+	var ats []*Term
+	for i, a := range args {
+		av := e.tr(a)
+		at := e.val(av)
+		if at.Sort != sorts[i] {
+			if bb, ok := av.Ty.(*types.Basic); ok && bb.Kind() == types.UntypedNil {
+				at = e.nilOf(sorts[i])
+			} else {
+				sfail("opaque pred %s arg %d: sort %s, expected %s", pd.Name, i, at.Sort.Name, sorts[i].Name)
+			}
+		}
+		ats = append(ats, at)
+	}
+	_ = tys
+	if len(ats) == 0 {
+		return SV{T: &Term{sym, SBool}, Ty: tBool}
+	}
+	return SV{T: mk(SBool, sym, ats...), Ty: tBool}
 }
-
-var _ = ssa.NaiveForm
